@@ -1,12 +1,23 @@
 /-
-  Line-protocol handlers for C03.  `handle` receives the tokens after the property id.
+  Line-protocol handlers for C03 (depth limits).
 -/
 import GEVerif.Model.Sexp
+import GEVerif.Model.Synth
+import GEVerif.Drive.Val
 
 namespace GEVerif.Drive.C03
-open GEVerif Sexp
+open GEVerif Sexp GEVerif.Drive
 
 def handle : List Sexp → Option Sexp
+  | [atom "create", spec, dec, draws] => do
+      let g := analyse (← parseSpec spec)
+      let dec ← parseDecider dec
+      if !deciderValid g dec then pure (list [atom "err", atom "library"]) else
+      pure (resSx valSx (randomTree g dec bigFuel (mkSt (← draws.asNats?))))
+  | [atom "prop_depth", mx, v] => do
+      pure (ofBool (decide ((← parseVal v).depth ≤ (← mx.asNat?))))
+  | [atom "min_depth", spec] => do
+      pure (ofNat (analyse (← parseSpec spec)).minTreeDepth)
   | _ => none
 
 end GEVerif.Drive.C03
